@@ -32,6 +32,9 @@ def exprs(tier, seq=True):
         for inner in ['&', '|', '+', '>>']:
             out.append('(%s %s (%s %s %s))' % (B, cmpop, A, inner, B))
             out.append('((%s %s %s) %s %s)' % (A, inner, B, cmpop, B))
+    out.append('((%s & 2) or (%s + 1))' % (A, B))
+    out.append('((%s + 1) and (%s | 2))' % (A, B))
+    out.append('((%s >> 1) or (%s & 1) or (%s * 2))' % (A, B, A))
     out.append('(%s or %s or %s)' % (A, B, K))
     out.append('(%s and %s and %s)' % (A, B, K))
     out.append('(%s == 0 or %s == 0 or %s == 3 or %s == 1 or %s == 2)' % (A, B, A, B, A))
@@ -79,6 +82,23 @@ STRUCT = {
          '        self.s = 0', '    case _:', '        self.s = 0', 'self.q.prepare(self.s)'],
         ['match self.s:', '    case 0 | 1:', '        self.s = self.s + 1', '    case _:', '        self.s = 0', 'self.q.prepare(self.s)'],
     ],
+    'dangling': [
+        # outer if with else whose then-branch is exactly one nested if without else (dangling-else shape)
+        ['if (self.a.get() == 1):', '    if (self.b.get() == 1):', '        self.s = 1', 'else:', '    self.s = 2', 'self.q.prepare(self.s)'],
+        ['if (self.a.get() > 1):', '    if (self.b.get() > 0):', '        self.q.prepare(1)', 'elif (self.a.get() == 1):', '    self.q.prepare(2)',
+         'else:', '    self.q.prepare(3)'],
+        ['if (self.s == 0):', '    if (self.a.get()):', '        if (self.b.get()):', '            self.s = 1', 'else:', '    self.s = 0',
+         'self.q.prepare(self.s + 1)'],
+    ],
+    'namedcase': [
+        # case values kept in attributes
+        ['match self.s:', '    case self.c0 if self.a.get() == 1:', '        self.s = 1', '    case self.c0:', '        self.s = 2',
+         '    case self.c1:', '        self.s = 0', '    case _:', '        self.s = 0', 'self.q.prepare(self.s)'],
+        ['match self.s:', '    case self.c0:', '        self.s = self.c1', '    case self.c1:', '        self.s = self.c0',
+         'self.q.prepare(self.s + self.a.get())'],
+        ['match self.s:', '    case self.c1 if self.b.get() == 0:', '        self.s = 0', '    case self.c0:', '        self.s = 1',
+         'self.q.prepare(self.s)'],
+    ],
     'ternary': [
         ['self.s = 1 if self.a.get() else 0', 'self.q.prepare(self.s)'],
         ['self.q.prepare(self.a.get() if self.b.get() == 1 else self.k)'],
@@ -125,6 +145,9 @@ def source(p, cname):
              "        self.addParameter('p', %d)" % p['p']]
     if p['kind'] == 'clock':
         lines.append('        self.s = %d' % p['s0'])
+        if p.get('family') == 'namedcase':
+            lines.append('        self.c0 = 0')
+            lines.append('        self.c1 = 1')
     lines.append('')
     lines.append('    def %s(self):' % p['kind'])
     for l in p['body']:
@@ -166,7 +189,7 @@ class Interp:
         self.wa, self.wb, self.wq = p['wa'], p['wb'], p['wq']
 
     def run(self, a, b, s):
-        self.env = {'a': a, 'b': b, 's': s, 'k': self.p['k'], 'p': self.p['p']}
+        self.env = {'a': a, 'b': b, 's': s, 'k': self.p['k'], 'p': self.p['p'], 'c0': 0, 'c1': 1}
         self.loc = {}
         self.q = None
         self.block(self.tree.body)
